@@ -370,10 +370,32 @@ fn run(ctx: &Ctx, src: &mut Src) -> WorldResult {
                 if got > n {
                     return Err(Violation::new(P, "C16.order", "read-overrun", format!("read({n}) returned {got}")));
                 }
+                // `Read`: 0 bytes into a non-empty buffer is the end of the data, a reader
+                // (read_to_end, lines) stops there; the queue may say so only when nothing
+                // can still be read from it
+                if got == 0 && n > 0 && q.len() > 0 {
+                    src.probe("end-of-data-reported-with-bytes-left");
+                    return Err(Violation::new(
+                        P,
+                        "C16.len",
+                        "end-of-data-with-bytes-left",
+                        format!("read({n}) returned 0 (end of data for a reader) while len() reports {} bytes still to be read", q.len()),
+                    ));
+                }
                 h.on_out(&buf[..got]);
             }
             5 => {
                 let slice = q.fill_buf().unwrap_or(&[]).to_vec();
+                // `BufRead`: an empty buffer means the end of the data
+                if slice.is_empty() && q.len() > 0 {
+                    src.probe("end-of-data-reported-with-bytes-left");
+                    return Err(Violation::new(
+                        P,
+                        "C16.len",
+                        "end-of-data-with-bytes-left",
+                        format!("fill_buf() returned an empty buffer (end of data for a reader) while len() reports {} bytes still to be read", q.len()),
+                    ));
+                }
                 let k = if slice.is_empty() { 0 } else { src.draw(slice.len() as u32 + 1) as usize };
                 if k > 0 && k < slice.len() {
                     partial = true;
